@@ -118,6 +118,8 @@ func execConc(op string, a []string) vlib.Res {
 		return execDup(a)
 	case "gate":
 		return execGate(a)
+	case "limrace":
+		return execLimRace(a)
 	case "run":
 		if len(a) != 6 {
 			break
